@@ -121,6 +121,15 @@ func migrate(db *sql.DB) error {
 	}
 
 	if uv == latestVersion {
+		// the file claims to be migrated: make sure the schema really is there, instead of
+		// running on a partially initialised database (e.g. without its index) forever
+		ok, err := schemaLooksLikeV1(db)
+		if err != nil {
+			return fmt.Errorf("inspecting schema: %w", err)
+		}
+		if !ok {
+			return fmt.Errorf("database user_version %d does not match its sqlite schema", uv)
+		}
 		return nil
 	}
 
